@@ -60,6 +60,13 @@ func genCLI(t *rapid.T) Case {
 		c.FlipOff = rapid.IntRange(0, 1<<16).Draw(t, "flipoff")
 		c.FlipBit = rapid.IntRange(0, 7).Draw(t, "flipbit")
 	}
+	if c.Op == "cli-cache" && rapid.IntRange(0, 4).Draw(t, "cacheself") == 0 {
+		// the store given as source and as target: what it lacks cannot come from anywhere
+		c.CacheSelf = true
+		c.PrefillEvery = rapid.SampledFrom([]int{1, 1, 2, 3}).Draw(t, "cspevery")
+		c.PrefillRem = rapid.IntRange(0, 2).Draw(t, "csprem")
+		c.Faults = nil
+	}
 	if c.Op == "cli-cache" && rapid.IntRange(0, 9).Draw(t, "srcmiss") == 0 {
 		c.SrcMissing = []int{rapid.IntRange(0, 1<<16).Draw(t, "miss")}
 	}
@@ -326,7 +333,21 @@ func runCLI(c Case) (o hx.Outcome) {
 				mayFail = "the source lacks a chunk the target needs"
 			}
 		}
-		args = append([]string{"cache", "-s", src.url(), "-c", dst.url()}, common...)
+		if c.CacheSelf {
+			mayFail = ""
+			for _, ch := range idx.Chunks {
+				if !prefilled[ch.ID] {
+					mayFail = "the store lacks a chunk of the index and is its own only source"
+				}
+			}
+			o.Class("cli-cache:source-is-target")
+			if mayFail != "" {
+				o.Class("cli-cache:source-is-target:chunk-missing")
+			}
+			args = append([]string{"cache", "-s", dst.url(), "-c", dst.url()}, common...)
+		} else {
+			args = append([]string{"cache", "-s", src.url(), "-c", dst.url()}, common...)
+		}
 		args = append(args, refIndexFile())
 	case "cli-tar":
 		tree := filepath.Join(dir, "tree")
